@@ -68,6 +68,10 @@ class C06(Harness):
         for s in (('x',), ('x', 'n:bounds'), ('x', 'y')):
             for mode in ('watch', 'queued'):
                 out.append({'shape': 'single', 'm': [[mode, list(s)]], 'L': L, 'skip': True})
+        # the dependent method is declared on a plain (non-Parameterized) mixin class, listed before or after the Parameterized base
+        for r in [[m, list(s)] for s in (('x',), ('x', 'y'), ('n:bounds',)) for m in ('watch', 'on_init')]:
+            for first in (True, False):
+                out.append({'shape': 'mixin', 'm': [None, r], 'L': L, 'mixin_first': first})
         # function form with Parameter-object dependencies
         for s in (('x',), ('x', 'y')):
             out.append({'shape': 'function', 'm': [['watch', list(s)]], 'L': L})
@@ -121,6 +125,10 @@ class C06(Harness):
         Base = type('Base', (param.Parameterized,), base_ns)
         if shape in ('single', 'function'):
             return Base, [Base]
+        if shape == 'mixin':
+            Mixin = type('Mixin', (), ns_for(1))
+            K = type('K', (Mixin, Base) if cfg.get('mixin_first') else (Base, Mixin), {})
+            return K, [K, Mixin, Base]
         if shape == 'chain2':
             A = type('A', (Base,), ns_for(1))
             return A, [A, Base]
@@ -139,7 +147,7 @@ class C06(Harness):
     def resolve(self, cfg):
         """-> (watching?, on_init?, set of (name, what)) for the MRO-effective m"""
         shape = cfg['shape']
-        order = {'single': [0], 'function': [0], 'chain2': [1, 0], 'chain3': [2, 1, 0], 'diamond': [3, 1, 2, 0]}[shape]
+        order = {'single': [0], 'function': [0], 'mixin': [1, 0], 'chain2': [1, 0], 'chain3': [2, 1, 0], 'diamond': [3, 1, 2, 0]}[shape]
         hdecl = cfg.get('h') or [['y']] + [None] * 3
         eff = None
         mlvl = None
